@@ -1020,6 +1020,24 @@ def _eval_enforce(e: ast.expr, edges: int, density: float, env: dict, fi, ctx):
             body = [st for st in r[1].node.body if not (isinstance(st, ast.Expr) and isinstance(st.value, ast.Constant))]
             if len(body) == 1 and isinstance(body[0], ast.Return) and body[0].value is not None:
                 return _eval_enforce(body[0].value, edges, density, {}, r[1], ctx)
+
+            # guard clauses:  if <test>: return <expr>  ...  return <expr>
+            def run(stmts):
+                for st in stmts:
+                    if isinstance(st, ast.If):
+                        branch = st.body if _eval_enforce(st.test, edges, density, {}, r[1], ctx) else st.orelse
+                        v_ = run(branch)
+                        if v_ is not None:
+                            return v_
+                    elif isinstance(st, ast.Return) and st.value is not None:
+                        return ("v", _eval_enforce(st.value, edges, density, {}, r[1], ctx))
+                    else:
+                        raise AnalysisError(f"enforce condition: cannot evaluate `{short(e)}`")
+                return None
+            if all(isinstance(st, (ast.If, ast.Return)) for st in body):
+                v_ = run(body)
+                if v_ is not None:
+                    return v_[1]
     raise AnalysisError(f"enforce condition: cannot evaluate `{short(e)}`")
 
 
